@@ -174,7 +174,7 @@ struct Conn { stream: Option<TcpStream>, addr: u32, asn: u32, established: bool 
 
 /// What the async part of a case returns: one token per op, the updates in gate order with the index of
 /// the op during which each arrived, the live keys and the next ingress id.
-struct Raw { toks: Vec<String>, updates: Vec<(usize, Update)>, live: Vec<(IpAddr, u32)>, next: u32, panicked: bool, flood: usize }
+struct Raw { toks: Vec<String>, updates: Vec<(usize, Update)>, live: Vec<(IpAddr, u32)>, next: u32, panicked: bool, flood: usize, discard: bool }
 
 fn info_count(reg: &ving::Register, upto: u32) -> usize { (1..=upto).filter(|i| reg.get(*i).is_some()).count() }
 
@@ -194,8 +194,10 @@ static NEXT_PORT: std::sync::atomic::AtomicUsize = std::sync::atomic::AtomicUsiz
 fn free_port() -> u16 {
     loop {
         let n = NEXT_PORT.fetch_add(1, std::sync::atomic::Ordering::SeqCst);
-        let base = 20000 + (std::process::id() as usize % 350) * 100;
-        let port = (base + n % 100 + (n / 100) * 7 % 100) as u16;
+        // one slot of 7500 ports per process (a thorough run uses < 7500 cases): no port is handed out twice
+        // within a process, so a case never meets another case's unit on "its" port
+        let base = 10000 + (std::process::id() as usize % 7) * 7500;
+        let port = (base + n % 7500) as u16;
         if std::net::TcpListener::bind(("127.0.0.1", port)).is_ok() { return port; }
     }
 }
@@ -233,7 +235,7 @@ async fn run_async(scn: &Scn, blobs: &mut HashMap<Vec<u8>, u32>) -> Raw {
     let mut port = 0;
     for _ in 0..20 {
         port = free_port();
-        let cfg = match hook::parse_unit(&toml_of(&scn.cfg, port)) { Ok(c) => c, Err(e) => return Raw { toks: vec![format!("bad-config:{}", e.replace(|c: char| c.is_whitespace() || c == '|', "_"))], updates: vec![], live: vec![], next: 0, panicked: false, flood: 0 } };
+        let cfg = match hook::parse_unit(&toml_of(&scn.cfg, port)) { Ok(c) => c, Err(e) => return Raw { toks: vec![format!("bad-config:{}", e.replace(|c: char| c.is_whitespace() || c == '|', "_"))], updates: vec![], live: vec![], next: 0, panicked: false, flood: 0, discard: true } };
         let (u, mut link) = hook::start(cfg, reg.clone());
         let c2 = collected.clone();
         let target = Arc::new(FnTarget(Arc::new(move |u: Update| { c2.lock().unwrap().push(u); })));
@@ -244,13 +246,15 @@ async fn run_async(scn: &Scn, blobs: &mut HashMap<Vec<u8>, u32>) -> Raw {
         if ok { unit = Some((u, link, target)); break; }
         u.task.abort();
     }
-    let Some((unit, _link, _target)) = unit else { return Raw { toks: vec!["no-listener".into()], updates: vec![], live: vec![], next: 0, panicked: false, flood: 0 } };
+    let Some((unit, _link, _target)) = unit else { return Raw { toks: vec!["no-listener".into()], updates: vec![], live: vec![], next: 0, panicked: false, flood: 0, discard: true } };
     let mut conns: Vec<Conn> = vec![];
     let mut toks: Vec<String> = vec![];
     let mut stamped: Vec<(usize, Update)> = vec![];
     let mut seen = 0usize;
     let mut terminated = false;
     let mut flood = 0usize;
+    let mut guard: Option<TcpSocket> = None;
+    let mut port_lost = false;
     let drain = |opi: usize, seen: &mut usize, stamped: &mut Vec<(usize, Update)>| -> Vec<String> {
         let g = collected.lock().unwrap();
         let mut out = vec![];
@@ -259,6 +263,7 @@ async fn run_async(scn: &Scn, blobs: &mut HashMap<Vec<u8>, u32>) -> Raw {
     };
     for (opi, op) in scn.ops.iter().enumerate() {
         let tok: String = match op {
+            Op::Conn(addr, asn) if port_lost => { conns.push(Conn { stream: None, addr: *addr, asn: *asn, established: false }); "port-lost".into() }
             Op::Conn(addr, asn) => {
                 let sock = TcpSocket::new_v4().unwrap();
                 let _ = sock.set_reuseaddr(true);
@@ -371,6 +376,10 @@ async fn run_async(scn: &Scn, blobs: &mut HashMap<Vec<u8>, u32>) -> Raw {
                     // it): a connection made before that is still accepted by the OS and then dropped, which
                     // reads as `nocfg` instead of `refused` (a load-dependent false alarm of an earlier version)
                     wait_until(ARRIVE, || unit.task.is_finished()).await;
+                    // keep the port: a bound, non-listening socket refuses connections like a free port does and
+                    // stops any other unit (another case, another process) from taking the port over while this
+                    // case still connects to it; if somebody was faster the case is discarded
+                    match TcpSocket::new_v4() { Ok(g) => match g.bind(SocketAddr::from(([127, 0, 0, 1], port))) { Ok(()) => guard = Some(g), Err(_) => port_lost = true }, Err(_) => port_lost = true }
                     let c3 = collected.clone();
                     wait_until(SETTLE, || c3.lock().unwrap().len() > n0).await;
                     tokio::time::sleep(Duration::from_millis(30)).await;
@@ -399,7 +408,8 @@ async fn run_async(scn: &Scn, blobs: &mut HashMap<Vec<u8>, u32>) -> Raw {
     let panicked = unit.task.is_finished() && !terminated;
     unit.task.abort();
     drop(conns);
-    Raw { toks, updates: stamped, live, next, panicked, flood }
+    drop(guard);
+    Raw { toks, updates: stamped, live, next, panicked, flood, discard: port_lost }
 }
 
 // ------------------------------------------------------------------ panics (per case, by runtime thread name)
@@ -432,7 +442,7 @@ fn spec_match<'a>(cfg: &'a [Entry], addr: u32) -> Option<&'a Entry> {
 }
 fn spec_allows(e: &Entry, asn: u32) -> bool { match &e.asns { Asns::One(n) => *n == asn, Asns::Many(v) => v.is_empty() || v.contains(&asn) } }
 
-struct Outcome { case: String, imp: String, oracle: String, nontrivial: bool, notes: Vec<String> }
+struct Outcome { case: String, imp: String, oracle: String, nontrivial: bool, notes: Vec<String>, discard: bool }
 
 fn run_scn(scn: &Scn, qs: &[Pfx]) -> Outcome {
     let tname = format!("bgpin-case-{}", CASE_NO.fetch_add(1, std::sync::atomic::Ordering::SeqCst));
@@ -578,7 +588,7 @@ fn run_scn(scn: &Scn, qs: &[Pfx]) -> Outcome {
     let oracle = match fails.first() { None => "ok".to_string(), Some(f) => format!("fail {}{}", f, if fails.len() > 1 { format!(" (+{} more: {})", fails.len() - 1, join(fails[1..].iter().map(|x| x.split_whitespace().next().unwrap_or("").to_string()), ",")) } else { String::new() }) };
     let nontrivial = tr.iter().filter(|t| t.est).count() >= 1 && scn.ops.iter().any(|o| matches!(o, Op::Upd(..))) && ended_any;
     for t in &raw.toks { notes.push(format!("tok-{}", t.split('>').next().unwrap_or("").split('.').next().unwrap_or(""))); }
-    Outcome { case, imp, oracle, nontrivial, notes }
+    Outcome { case, imp, oracle, nontrivial, notes, discard: raw.discard }
 }
 
 // ------------------------------------------------------------------ generators
@@ -679,6 +689,9 @@ fn main() {
     let pool = pool();
     let mut rec = Recorder::new("at least one established session that announced something and at least one session end in the history");
     let mut record = |rec: &mut Recorder, o: Outcome| {
+        // the environment took the case away (no listener could be started, or the port was taken over after
+        // the unit's termination): not an observation of rotonda
+        if o.discard { rec.bump("discarded.environment"); return; }
         for n in &o.notes { rec.bump(n); }
         rec.case(o.case, o.imp, o.oracle, o.nontrivial);
     };
